@@ -429,6 +429,32 @@ def run_sequence(case):
     return case
 
 
+def run_sameobj(case):
+    """Take basis.coeffs, edit elements of that very object in place, assign the SAME object back through the
+    setter, then read kappa / probabilities / overhead.  (The edit alone does not run the setter - out of scope -
+    but the assignment does: afterwards kappa must be sum|coeffs| of the edited vector.)"""
+    if case["source"] == "gate":
+        b = QPDBasis.from_instruction(mk_gate(case["name"]))
+    else:
+        b = QPDBasis(build_maps(case["arities"]), in_container(case["c0"], case["container"]))
+    first = observe(b)
+    vec = b.coeffs
+    saved = []
+    try:
+        for i, x in case["edits"]:
+            saved.append((i, vec[i]))
+            vec[i] = x
+        b.coeffs = vec
+        same = b.coeffs is vec
+        after = _try_obs(lambda: b)
+    finally:
+        for i, v in reversed(saved):   # undo, should the object be shared by a mutated tree
+            vec[i] = v
+    case = dict(case)
+    case["impl"] = dict(first=first, after=after, same_object_kept=bool(same))
+    return case
+
+
 # ------------------------------------------------------------------------------------------------
 # generation
 # ------------------------------------------------------------------------------------------------
@@ -646,6 +672,34 @@ def generate(rng, tier, outdir):
         w.count("basis.refused_reassignments", sum(1 for s in steps[1:] if s["refused"]))
         jc(case, "basis.judge")
 
+    # ---------------- the same coefficient object edited in place and assigned back ----------------
+    for it in range(40 if quick else 600):
+        if it % 4 == 0:
+            name = ["cx", "cy", "cz", "ch", "ecr"][(it // 4) % 5]
+            base = dict(source="gate", name=name, arities=[2] * 6, c0=[0.5, 0.5, 0.5, -0.5, 0.5, -0.5], container="list")
+        else:
+            n = int(rng.integers(1, 9))
+            base = dict(source="maps", name=None, arities=[int(rng.integers(1, 3))] * n, c0=dyadic_vec(rng, n),
+                        container=str(rng.choice(["list", "ndarray"])))
+        n = len(base["c0"])
+        while True:
+            edits = [[int(rng.integers(0, n)), float(int(rng.integers(-1023, 1024)) / (1 << int(rng.integers(0, 6))))]
+                     for _ in range(int(rng.integers(1, 4)))]
+            final = list(base["c0"])
+            for i, x in edits:
+                final[i] = x
+            if any(v != 0 for v in final) and sum(abs(v) for v in final) != sum(abs(v) for v in base["c0"]):
+                break
+        sc = guarded(run_sameobj, dict(kind="sameobj", edits=edits, final=final, **base))
+        if "crashed" in sc["impl"]:
+            os_ = [(False, Opt(BAD_OBS))]
+        else:
+            os_ = [(False, Opt(coq_obs(sc["impl"]["first"]))), (False, Opt(coq_obs(sc["impl"]["after"])))]
+        w.add("sameobj", "chk_basis", ([int(x) for x in base["arities"]], [qf(x) for x in base["c0"]], [[qf(x) for x in final]], os_),
+              sc, nontrivial=True)
+        w.count("sameobj.source", base["source"] + "/" + base["container"])
+        jc(sc, "sameobj.judge")
+
     # ---------------- sequences: edits of one basis must not leak into fresh bases ----------------
     # (last stream; every script undoes its in-place edit, so a list shared by a mutated tree is repaired)
     all_names = ["cx", "cy", "cz", "ch", "ecr", "move"] + [n for n in list(PARAM) + list(FIXED)
@@ -774,7 +828,14 @@ def judge(case):
     bad = []
     if kind in ("named", "kak", "kakfam", "conj", "seq_fresh") and ("crashed" in case["impl"] or not obs_finite(case["impl"])):
         return dict(violates=True, detail="; ".join(invariants(case["impl"])))
-    if kind == "seq_reassigned":
+    if kind == "sameobj":
+        if "crashed" in case["impl"]:
+            return dict(violates=True, detail=f"implementation raised {case['impl']['crashed']}")
+        o = case["impl"]["after"]
+        bad += invariants(o, where="after editing basis.coeffs in place and assigning the same object back: ")
+        if not bad and [float(x) for x in o["coeffs"]] != [float(x) for x in case["final"]]:
+            bad.append("coeffs after the assignment differ from the assigned vector")
+    elif kind == "seq_reassigned":
         o = case["impl"]
         bad += invariants(o, where="after reassigning coeffs: ")
         if not bad and [float(x) for x in o["coeffs"]] != [float(x) for x in case["script"]["newvec"]]:
@@ -848,6 +909,8 @@ def rerun(case):
         return k
     if kind == "basis":
         return run_basis(case)
+    if kind == "sameobj":
+        return guarded(run_sameobj, case)
     if kind == "seq_fresh":
         r = guarded(run_sequence, dict(script=case["script"], targets=[case["target"]]))
         case["impl"] = r["impl"] if "crashed" in r["impl"] else r["impl"]["fresh"][0]
